@@ -2,6 +2,7 @@ import Driver.Loop
 import ElaVerif.Model.WireDriver
 import ElaVerif.Model.P2PFrame
 import ElaVerif.Gen.C02
+import ElaVerif.Lemmas.WireTokens
 /-
   C02 driver: the decoder ops of `Model/WireDriver.lean`, plus the message-level read path
 
@@ -52,7 +53,21 @@ def stepMsg (st magic hex : String) (extra : List String) : String :=
     | none => out
   | _, _, _ => "bad-op"
 
+/-- `dmsg <package.Type> <hex> …` → ok <consumed> <re-encoding> | err | unmodelled: the payload codec of a
+    p2p / DPoS p2p message, decoded with the schema derived (`WireTokens.ofToks`) from the regenerated,
+    fully inlined read-token stream of its `Deserialize` -/
+def stepDmsg (name hex : String) : String :=
+  match ElaVerif.WireTokens.findStream ElaVerif.Gen.C02.msgStreams name, ElaVerif.WireDriver.hexBytes? hex with
+  | some s, some bs =>
+    let ty := ElaVerif.WireTokens.ofToks s.de
+    if ElaVerif.WireTokens.hasFail ty then "unmodelled" else
+    match (ElaVerif.Wire.decodeA ty bs).res with
+    | some (v, rest) => s!"ok {bs.length - rest.length} {ElaVerif.WireDriver.toHex (ElaVerif.Wire.encode ty v)}"
+    | none => "err"
+  | _, _ => "bad-op"
+
 def step : List String → String
+  | "dmsg" :: name :: hex :: _ => stepDmsg name hex
   | "msg" :: st :: magic :: hex :: extra => stepMsg st magic hex extra
   | t => ElaVerif.WireDriver.step t
 
